@@ -78,6 +78,11 @@ def run(ctx):
                               "direct-read path reports the PREVIOUS block's length as bytes produced without writing them, on every call",
                               fnb.loc(bad))
 
+    ctx.rule("C13.R7", "a truncated text stream ends the scan: every loop around fill_buf has an exit controlled by the emptiness of the window "
+                       "(then EOF or an error is reported, never an endless consume(0) loop)")
+    from .. import a5
+    a5.fill_loop_eof_rule(ctx, "C13.R7", 15)
+
     ctx.rule("C13.R2", "A4 a torn block cannot pass as data: BGZF and CRAM integrity guards (re-decided)")
     FR = "noodles_bgzf::io::reader::frame::"
     R.integrity_guard(ctx, "C13.R2", FR + "inflate", r"noodles_bgzf::deflate::crc32$", "BGZF CRC32 of inflated data == trailer CRC32")
